@@ -1,2 +1,221 @@
-(* Props/C20.v — placeholder until the proofs land. *)
-From Coq Require Import ZArith.
+(* Props/C20.v — property C20: SubnetSplitter never hands out overlapping space.
+   Nothing but statements closed by `exact`, each followed by Print Assumptions.
+   Vocabulary (Proofs/C20.v, spelled out by C20_Inv_def / C20_step_ok_def / C20_vocabulary):
+   a network is c = (value, prefixlen) of the family `ver` (width w = width ver, 32 or 128), host bits allowed;
+   inc w c x: address x lies in c (first_of w c <= x <= last_of w c); cov w l x: x lies in a network of l;
+   hostfree w c: c has no host bits; B: the base network; st: the `_subnets` set as a list; H: every block handed out
+   (returned by extract_subnet) or removed (remove_subnet) so far, in order.
+   Inv w B st H: available blocks well formed, host-bit-free unless it is the untouched base, pairwise disjoint,
+   of PAIRWISE DISTINCT PREFIX LENGTHS, disjoint from every block of H; the blocks of H pairwise disjoint; and
+   every address of B lies in an available block or in a block of H, and nothing else does (tiling: no overlap, no gap).
+   chosen st q c0: c0 is an available block with the largest prefix <= q (unique, C20_chosen_unique).
+   subnets_of w c0 q cnt = [ {first c0 + i * 2^(w-q); q} | 0 <= i < cnt ].
+   The proofs that go through the `cidr_merge(subnets)` call (Proofs/C20.v) are stated under `cidr_merge_spec`
+   (Proofs/NetDen.v: cidr_merge returns the canonical list of exactly the union of its inputs); here that hypothesis
+   is discharged by C05_merge (Proofs/C05.v), so the theorems below carry no hypothesis. *)
+From NV Require Import Base.Tac Base.PyVal Base.Bits Base.Canon Model.Ip Model.Partition Model.Merge Model.Subnet Model.Splitter
+  Proofs.C09 Proofs.C11 Proofs.NetDen Proofs.C05 Proofs.C20_excl Proofs.C20.
+From Coq Require Import Sorting.Permutation.
+Open Scope Z_scope.
+
+(* SubnetSplitter(base): the base alone is available, nothing has been handed out *)
+Theorem C20_init : forall w B, 0 <= w -> wf_cblk w B -> Inv w B [B] [].
+Proof. exact Inv_init. Qed.
+Print Assumptions C20_init.
+
+(* ---- extract_subnet(q, count), for every q <= w (negative q included) and every count (None, 0, negative, too large) ---- *)
+(* read off the outcome: a normal return keeps the invariant with the returned subnets added to H; every returned
+   subnet is a host-bit-free /q inside the base, disjoint from everything handed out or removed before and from the
+   other returned subnets; an empty result leaves the state as it was; the only exception is ValueError *)
+Theorem C20_extract : forall ver, valid_ver ver = true -> forall B st H q count,
+  Inv (width ver) B st H -> q <= width ver ->
+  match extract_subnet ver st q count with
+  | Ok (st', subnets) =>
+      Inv (width ver) B st' (H ++ subnets) /\
+      (forall s, In s subnets -> snd s = q /\ wf_cblk (width ver) s /\ hostfree (width ver) s /\
+                 (forall x, inc (width ver) s x -> inc (width ver) B x) /\
+                 (forall h x, In h H -> inc (width ver) h x -> inc (width ver) s x -> False)) /\
+      pw_disjoint (width ver) subnets /\
+      (subnets = [] -> st' = st)
+  | Raise e => e = ValueError
+  end.
+Proof. exact (extract_cases C05_merge). Qed.
+Print Assumptions C20_extract.
+
+(* which block is used, and what exactly comes back: no available block of prefix <= q: [] and nothing changes *)
+Theorem C20_extract_none : forall ver st q count,
+  (forall c, In c st -> wf_cblk (width ver) c) -> (forall c, In c st -> q < snd c) ->
+  extract_subnet ver st q count = Ok (st, []).
+Proof. exact extract_none. Qed.
+Print Assumptions C20_extract_none.
+
+(* otherwise the available block c0 with the largest prefix <= q is used; with cnt = count (default 2^(q - p0)) in
+   [1, 2^(q - p0)] its first cnt blocks /q are returned (never an empty list), the invariant is kept and the
+   available space shrinks by exactly the returned subnets *)
+Theorem C20_extract_chosen : forall ver, valid_ver ver = true -> forall B st H q count c0,
+  Inv (width ver) B st H -> q <= width ver -> chosen st q c0 ->
+  let cnt := req_count count q (snd c0) in
+  1 <= cnt <= 2 ^ (q - snd c0) ->
+  exists st', extract_subnet ver st q count = Ok (st', subnets_of (width ver) c0 q cnt) /\
+    Inv (width ver) B st' (H ++ subnets_of (width ver) c0 q cnt) /\
+    subnets_of (width ver) c0 q cnt <> [] /\
+    (forall s, In s (subnets_of (width ver) c0 q cnt) ->
+       snd s = q /\ wf_cblk (width ver) s /\ hostfree (width ver) s /\
+       (forall x, inc (width ver) s x -> inc (width ver) c0 x)) /\
+    pw_disjoint (width ver) (subnets_of (width ver) c0 q cnt) /\
+    (forall x, cov (width ver) st' x <-> cov (width ver) st x /\ ~ cov (width ver) (subnets_of (width ver) c0 q cnt) x).
+Proof. exact (extract_ok C05_merge). Qed.
+Print Assumptions C20_extract_chosen.
+
+(* ... and a count outside [1, 2^(q - p0)] raises ValueError (the state is kept by sp_step, C20_step) *)
+Theorem C20_extract_bad_count : forall ver, valid_ver ver = true -> forall B st H q count c0,
+  Inv (width ver) B st H -> q <= width ver -> chosen st q c0 ->
+  ~ (1 <= req_count count q (snd c0) <= 2 ^ (q - snd c0)) -> extract_subnet ver st q count = Raise ValueError.
+Proof. exact extract_bad_count. Qed.
+Print Assumptions C20_extract_bad_count.
+
+(* the three cases are exhaustive and the chosen block is unique *)
+Theorem C20_chosen_exists : forall ver, valid_ver ver = true -> forall st q,
+  (forall c, In c st -> q < snd c) \/ exists c0, chosen st q c0.
+Proof. exact chosen_dec. Qed.
+Print Assumptions C20_chosen_exists.
+
+Theorem C20_chosen_unique : forall st q c0 c1, NoDup (map snd st) -> chosen st q c0 -> chosen st q c1 -> c0 = c1.
+Proof. exact chosen_unique. Qed.
+Print Assumptions C20_chosen_unique.
+
+(* ---- remove_subnet(k) ---- *)
+(* k equal (as IPNetwork: same first and last address) to an available block c: c leaves the available space *)
+Theorem C20_remove : forall ver B st H k c, Inv (width ver) B st H -> wf_cblk (width ver) k -> In c st ->
+  cidr_of (width ver) k = cidr_of (width ver) c ->
+  exists st', remove_subnet (width ver) st k = Ok st' /\ Inv (width ver) B st' (H ++ [k]) /\
+              (forall x, In x st' <-> In x st /\ x <> c).
+Proof. exact remove_ok. Qed.
+Print Assumptions C20_remove.
+
+(* anything else: KeyError *)
+Theorem C20_remove_absent : forall ver st k, (forall c, In c st -> wf_cblk (width ver) c) -> wf_cblk (width ver) k ->
+  (forall c, In c st -> cidr_of (width ver) k <> cidr_of (width ver) c) -> remove_subnet (width ver) st k = Raise KeyError.
+Proof. exact remove_absent. Qed.
+Print Assumptions C20_remove_absent.
+
+(* ---- one API call (sp_step: a raising call leaves the state as it was) ---- *)
+Theorem C20_step : forall ver, valid_ver ver = true -> forall B st H o,
+  Inv (width ver) B st H -> op_ok ver o -> step_ok ver B st H o (sp_step ver st o).
+Proof. exact (step_spec C05_merge). Qed.
+Print Assumptions C20_step.
+
+(* ---- histories: any finite sequence of extract_subnet(q <= w, any count) and remove_subnet(any network) calls ----
+   `run ver B ops` = (available blocks, blocks handed out or removed so far) after the calls `ops` on SubnetSplitter(B) *)
+Theorem C20_reachable : forall ver, valid_ver ver = true -> forall B, wf_cblk (width ver) B ->
+  forall ops, Forall (op_ok ver) ops -> Inv (width ver) B (fst (run ver B ops)) (snd (run ver B ops)).
+Proof. exact (reachable C05_merge). Qed.
+Print Assumptions C20_reachable.
+
+(* the next call after any history: every subnet returned has the requested prefix, lies inside the base and is disjoint
+   from every subnet returned or removed before; failed requests (ValueError, KeyError) leave the state unchanged *)
+Theorem C20_reachable_step : forall ver, valid_ver ver = true -> forall B, wf_cblk (width ver) B ->
+  forall ops o, Forall (op_ok ver) ops -> op_ok ver o ->
+  step_ok ver B (fst (run ver B ops)) (snd (run ver B ops)) o (sp_step ver (fst (run ver B ops)) o).
+Proof. exact (reachable_step C05_merge). Qed.
+Print Assumptions C20_reachable_step.
+
+Theorem C20_run_snoc : forall ver B ops o, run ver B (ops ++ [o]) = acc_step ver (run ver B ops) o.
+Proof. exact run_snoc. Qed.
+Print Assumptions C20_run_snoc.
+
+(* totality: no OutOfFuel, Unsupported, IndexError, AddrFormatError; KeyError only from the user's remove_subnet
+   (never from the internal remove_subnet of the chosen block), ValueError only from extract_subnet *)
+Theorem C20_no_fuel : forall ver, valid_ver ver = true -> forall B st H o e,
+  Inv (width ver) B st H -> op_ok ver o -> snd (sp_step ver st o) = Raise e ->
+  match o with SpExtract _ _ => e = ValueError | SpRemove _ => e = KeyError end /\ fst (sp_step ver st o) = st.
+Proof. exact (step_exn C05_merge). Qed.
+Print Assumptions C20_no_fuel.
+
+(* ---- the iteration order of the Python set is irrelevant ---- *)
+(* with pairwise distinct prefix lengths (part of Inv) the stable sort of available_subnets has one answer *)
+Theorem C20_available_unique : forall st st2, NoDup (map snd st) -> Permutation st st2 ->
+  available_subnets st = available_subnets st2.
+Proof. exact available_subnets_unique. Qed.
+Print Assumptions C20_available_unique.
+
+Theorem C20_Inv_perm : forall w B st st2 H, Permutation st st2 -> Inv w B st H -> Inv w B st2 H.
+Proof. exact Inv_perm. Qed.
+Print Assumptions C20_Inv_perm.
+
+(* listing the same set in another order gives the same returned subnets and the same available space afterwards *)
+Theorem C20_order_irrelevant : forall ver B st st2 H q count, valid_ver ver = true ->
+  Inv (width ver) B st H -> Permutation st st2 -> q <= width ver ->
+  match extract_subnet ver st q count, extract_subnet ver st2 q count with
+  | Ok (st', s), Ok (st2', s2) => s = s2 /\ forall x, cov (width ver) st' x <-> cov (width ver) st2' x
+  | Raise e, Raise e2 => e = e2
+  | _, _ => False
+  end.
+Proof. exact (extract_order_irrelevant C05_merge). Qed.
+Print Assumptions C20_order_irrelevant.
+
+(* ---- the vocabulary is what the header says ---- *)
+Theorem C20_Inv_def : forall w B st H, Inv w B st H <->
+  (forall c, In c st -> wf_cblk w c) /\
+  (forall c, In c st -> hostfree w c \/ c = B) /\
+  NoDup (map snd st) /\
+  (forall a b x, In a st -> In b st -> inc w a x -> inc w b x -> a = b) /\
+  (forall h, In h H -> wf_cblk w h) /\
+  (NoDup H /\ forall a b x, In a H -> In b H -> inc w a x -> inc w b x -> a = b) /\
+  (forall c h x, In c st -> In h H -> inc w c x -> inc w h x -> False) /\
+  (forall x, inc w B x <-> (exists c, In c st /\ inc w c x) \/ (exists h, In h H /\ inc w h x)).
+Proof. exact Inv_def. Qed.
+Print Assumptions C20_Inv_def.
+
+Theorem C20_step_ok_def : forall ver B st H o res, step_ok ver B st H o res <->
+  Inv (width ver) B (fst res) (H ++ handed o (snd res)) /\
+  match o, snd res with
+  | SpExtract q _, Ok subnets =>
+      (forall s, In s subnets -> snd s = q /\ wf_cblk (width ver) s /\ hostfree (width ver) s /\
+                 (forall x, inc (width ver) s x -> inc (width ver) B x) /\
+                 (forall h x, In h H -> inc (width ver) h x -> inc (width ver) s x -> False)) /\
+      pw_disjoint (width ver) subnets /\ (subnets = [] -> fst res = st)
+  | SpExtract _ _, Raise e => e = ValueError /\ fst res = st
+  | SpRemove k, Ok s => s = [] /\ exists c, In c st /\ cidr_of (width ver) k = cidr_of (width ver) c /\
+                                            forall x, In x (fst res) <-> In x st /\ x <> c
+  | SpRemove k, Raise e => e = KeyError /\ fst res = st /\ forall c, In c st -> cidr_of (width ver) k <> cidr_of (width ver) c
+  end.
+Proof. exact step_ok_def. Qed.
+Print Assumptions C20_step_ok_def.
+
+Theorem C20_vocabulary : forall w c l x o r k q cnt c0 st count p,
+  (inc w c x <-> first_of w c <= x <= last_of w c) /\
+  (first_of w c = fst c - fst c mod 2 ^ (w - snd c)) /\ (last_of w c = first_of w c + 2 ^ (w - snd c) - 1) /\
+  (cidr_of w c = (first_of w c, snd c)) /\
+  (cov w l x <-> exists d, In d l /\ inc w d x) /\
+  (hostfree w c <-> fst c = first_of w c) /\
+  (wf_cblk w c <-> 0 <= fst c < 2 ^ w /\ 0 <= snd c <= w) /\
+  (pw_disjoint w l <-> NoDup l /\ forall a b y, In a l -> In b l -> inc w a y -> inc w b y -> a = b) /\
+  (chosen st q c0 <-> In c0 st /\ snd c0 <= q /\ forall d, In d st -> snd d <= q -> snd d <= snd c0) /\
+  req_count count q p = match count with None => 2 ^ (q - p) | Some n => n end /\
+  subnets_of w c0 q cnt = map (fun i => (first_of w c0 + i * 2 ^ (w - q), q)) (zseq 0 (Z.to_nat cnt)) /\
+  (op_ok k o <-> match o with SpExtract q' _ => q' <= width k | SpRemove n => wf_cblk (width k) n end) /\
+  handed o r = match r with Raise _ => [] | Ok s => match o with SpExtract _ _ => s | SpRemove n => [n] end end.
+Proof. exact vocabulary. Qed.
+Print Assumptions C20_vocabulary.
+
+(* non-vacuity: SubnetSplitter('10.0.0.77/24') (host bits in the base); extract_subnet(26, 3), extract_subnet(28, 1),
+   remove_subnet('10.0.0.230/27') (host bits, equal to the available 10.0.0.224/27), extract_subnet(24) (nothing coarse
+   enough: []), a failing remove_subnet('10.0.0.0/26') (KeyError) and a failing extract_subnet(28, 2) (ValueError)
+   meet the hypotheses of C20_reachable / C20_reachable_step *)
+Example C20_nonvacuous :
+  let B := (167772237, 24) in
+  let ops := [SpExtract 26 (Some 3); SpExtract 28 (Some 1); SpRemove (167772390, 27); SpExtract 24 None;
+              SpRemove (167772160, 26); SpExtract 28 (Some 2)] in
+  valid_ver 4 = true /\ wf_cblk (width 4) B /\ Forall (op_ok 4) ops /\
+  run 4 B [SpExtract 26 (Some 3)] = ([(167772352, 26)], [(167772160, 26); (167772224, 26); (167772288, 26)]) /\
+  run 4 B ops = ([(167772368, 28)],
+    [(167772160, 26); (167772224, 26); (167772288, 26); (167772352, 28); (167772390, 27)]) /\
+  snd (sp_step 4 [(167772368, 28)] (SpExtract 24 None)) = Ok [] /\
+  snd (sp_step 4 [(167772368, 28)] (SpExtract 28 (Some 2))) = Raise ValueError /\
+  snd (sp_step 4 [(167772368, 28)] (SpRemove (167772160, 26))) = Raise KeyError.
+Proof.
+  cbv zeta. split; [reflexivity|]. split; [unfold wf_cblk; cbn; lia|]. split.
+  - repeat constructor; unfold op_ok, wf_cblk; cbn; lia.
+  - repeat split; vm_compute; reflexivity.
+Qed.
